@@ -34,6 +34,10 @@ FILES = [
     "lexical-util/src/format_flags.rs", "lexical-util/src/feature_format.rs", "lexical-util/src/not_feature_format.rs",
     "lexical-util/src/format_builder.rs", "lexical-util/src/ascii.rs", "lexical-util/src/algorithm.rs", "lexical-util/src/constants.rs",
     "lexical-util/src/options.rs", "lexical-util/src/extended_float.rs",
+    "lexical-util/src/libm.rs", "lexical-util/src/format.rs", "lexical-util/src/error.rs", "lexical-util/src/assert.rs",
+    "lexical-util/src/api.rs", "lexical-util/src/result.rs",
+    "lexical-parse-float/src/libm.rs", "lexical-parse-float/src/fpu.rs", "lexical-parse-integer/src/options.rs",
+    "lexical-write-integer/src/options.rs", "lexical-write-float/src/index.rs",
     "lexical-core/src/lib.rs", "lexical/src/lib.rs",
 ]
 
